@@ -62,6 +62,16 @@ theorem C18_monotone (c : Cfg) (s s' : Sys) (op : Op) (ok : PgOK s.pg) (h : step
     ∀ p, p ∈ s.pg.bits → p ∈ s'.pg.bits :=
   step_mono c s s' op ok h
 
+/-- allocation is monotone over EVERY history outside the trigger: whatever was allocated after a prefix
+    is still allocated after any continuation, so (with `C18_allocate_fresh`) no later allocation by any
+    structure returns a page that some structure was given earlier -/
+theorem C18_run_monotone (c : Cfg) (ops₀ ops : List Op) (h : NoTrigger c (ops₀ ++ ops) = true) :
+    ∀ p, p ∈ (run c (init c) ops₀).1.pg.bits → p ∈ (run c (init c) (ops₀ ++ ops)).1.pg.bits := by
+  simp only [NoTrigger, Bool.not_eq_true'] at h
+  rw [run_append] at h ⊢
+  simp only [Bool.or_eq_false_iff] at h
+  exact run_mono c ops _ (run_inv c ops₀ (init c) (init_inv c) h.1) h.2
+
 /-! ### non-vacuity (2 records per node-table page) -/
 
 def tiny : Cfg := ⟨2, 64, 2⟩
